@@ -113,6 +113,17 @@ def real_clip(case):
     elif k == "adaptive":
         opt = AdaClipDPOptimizer(inner, noise_multiplier=1.0, max_grad_norm=case["C"], expected_batch_size=1, target_unclipped_quantile=0.5,
                                  clipbound_learning_rate=0.2, max_clipbound=1e9, min_clipbound=1e-9, unclipped_num_std=1.0)
+    elif k == "perlayer-ddp":
+        # the real DistributedPerLayerOptimizer (rank 0 of a world of 1, no process group needed: its per-parameter tensor
+        # hooks are plain autograd hooks), so that the bound each hook was REGISTERED with is what is exercised
+        import torch.distributed as dist
+        from opacus.optimizers import DistributedPerLayerOptimizer
+        saved = (dist.get_rank, dist.get_world_size)
+        dist.get_rank, dist.get_world_size = (lambda *a, **kw: 0), (lambda *a, **kw: 1)
+        try:
+            opt = DistributedPerLayerOptimizer(inner, noise_multiplier=0.0, max_grad_norm=list(case["C"]), expected_batch_size=1, loss_reduction="sum")
+        finally:
+            dist.get_rank, dist.get_world_size = saved
     else:
         opt = DPPerLayerOptimizer(inner, noise_multiplier=1.0, max_grad_norm=list(case["C"]), expected_batch_size=1)
     for b, pc in zip(case["batches"], case["pieces"]):
@@ -120,9 +131,10 @@ def real_clip(case):
             t = t.clone()
             p.grad_sample = t if pc == 1 else [t[: len(t) // 2].clone(), t[len(t) // 2 :].clone()]
         if k == "perlayer-ddp":
-            for p, c in zip(ps, case["C"]):
+            for p in ps:
                 p.grad_sample = opt._get_flat_grad_sample(p)
-                _clip_and_accumulate_parameter(p, c)
+            # a backward pass through every parameter fires the registered hooks (the incoming gradient is ignored by them)
+            sum((p * 0.0).sum() for p in ps).backward()
         else:
             opt.clip_and_accumulate()
     return [None if p.summed_grad is None else p.summed_grad.detach().reshape(-1).tolist() for p in ps]
